@@ -463,10 +463,12 @@ impl<T: Qcow2IoOps> Qcow2Dev<T> {
             let end = key_fn(((idx + 1) as u64) << bs_bits);
 
             let res = async {
-                if self.flush_cache(cache, start, end, mapping).await? {
-                    // order cache flush and the upper layer table
-                    self.call_fsync(0, usize::MAX, 0).await?;
-                }
+                self.flush_cache(cache, start, end, mapping).await?;
+                // Order the slices and the upper layer table. Also when
+                // nothing was dirty here: the slices below this block may
+                // have been written back by a cache eviction since the last
+                // barrier, which doesn't sync.
+                self.call_fsync(0, usize::MAX, 0).await?;
                 self.flush_table(rt, idx << bs_bits, 1 << bs_bits).await
             }
             .await;
